@@ -579,6 +579,17 @@ pub mod atomic_shim {
 }
 pub use atomic_shim::{AtomicU64, Ordering};
 
+// more std pieces vstd does not specify (not used by the pinned code; they keep plausible edits within the verifier's reach)
+pub assume_specification<T, A: std::alloc::Allocator> [VecDeque::<T, A>::front] (v: &VecDeque<T, A>) -> (r: Option<&T>)
+    ensures match r { Some(x) => v@.len() > 0 && *x == v@[0], None => v@.len() == 0 };
+pub assume_specification<T, A: std::alloc::Allocator> [VecDeque::<T, A>::back] (v: &VecDeque<T, A>) -> (r: Option<&T>)
+    ensures match r { Some(x) => v@.len() > 0 && *x == v@[v@.len() - 1], None => v@.len() == 0 };
+pub assume_specification<T, A: std::alloc::Allocator> [VecDeque::<T, A>::swap_remove_back] (v: &mut VecDeque<T, A>, index: usize) -> (r: Option<T>)
+    ensures match r {
+        Some(x) => index < old(v)@.len() && x == old(v)@[index as int] && final(v)@ == old(v)@.update(index as int, old(v)@[old(v)@.len() - 1]).drop_last(),
+        None => index >= old(v)@.len() && final(v)@ == old(v)@,
+    };
+
 // R4 helpers: assumed contracts of the std iterator adapters the code uses
 #[verifier::external_body]
 pub fn vd_position_raw(o: &VecDeque<String>, key: &String) -> (r: Option<usize>)
